@@ -357,7 +357,9 @@ Locked(ww) == UNION {ww.proc[t].locks : t \in {u \in ThreadIds : ww.proc[u] # Id
 Start(ww, t, c) ==
   [ww EXCEPT !.proc[t] = [k |-> "run", call |-> c, script |-> Compile(ww, c), err |-> "nil", locks |-> LocksOf(ww, c)]]
 
-\* one atomic step of thread t; returns the new world, and at Ret the call's error class
+\* one atomic step of thread t; returns the new world, and at Ret the call's error class.
+\* (A named scope is never found closed by a step: whoever has it among its edges holds a reference,
+\* so the GC cannot have collected it; the one exception, a Done() in flight, is handled in GCStep.)
 Exec1(ww, t) ==
   LET pr == ww.proc[t]
       st == Head(pr.script)
